@@ -75,7 +75,7 @@ static Plan c14_gen(uint64_t seed, int tier, uint64_t index) {
         int c = (int) r.below(NCLIENTS);
         switch (r.below(16)) {
         case 0: case 1: case 2: p.ops.push_back(Op("full", c, (int64_t) r.below(3), (int64_t) r.next() % 100000, (int64_t) r.below(8))); break;     // d: bit0 tickets, bit1 EMS off, bit2 offer the suite family     // a: client, b: version, c: suite seed, d: flags (tickets, ems off)
-        case 3: case 4: case 5: case 6: p.ops.push_back(Op("resume", c, (int64_t) r.below(4))); break;                                              // b: 0 keep params, 1 other suite, 2 other version, 3 flip ems
+        case 3: case 4: case 5: case 6: p.ops.push_back(Op("resume", c, (int64_t) r.below(5))); break;                                              // b: 0 keep params, 1 other suite, 2 other version, 3 flip ems
         case 7: p.ops.push_back(Op("advance", (int64_t) ADV[r.below(sizeof ADV / sizeof ADV[0])])); break;
         case 8: p.ops.push_back(Op("fatal", c, (int64_t) r.below(2))); break;                                                                       // resume (or connect) and have a fatal alert hit the session
         case 9: p.ops.push_back(Op("fill", (int64_t) (5 + r.below(40)))); break;
@@ -141,6 +141,12 @@ static std::vector<Plan> c14_fixed(int tier) {
                         if (k == 4) { p.ops.push_back(Op("advance", AB[k][1])); p.ops.push_back(Op("resume", 0, 0)); }
                         v.push_back(p);
                     }
+                }
+                if (ver < 2) {   // TLS <= 1.2 id / ticket offered together with TLS 1.3
+                    Plan p; p.seed = 152000 + (uint64_t) ((kind * 3 + ver) * 2 + tk);
+                    p.cfg["kind"] = kind ? KK_EC256 : KK_RSA2048;
+                    p.ops.push_back(Op("full", 0, ver, 7, tk)); p.ops.push_back(Op("resume", 0, 4)); p.ops.push_back(Op("resume", 0, 0));
+                    v.push_back(p);
                 }
                 if (ver < 2) {   // table-slot poisoning: B files a session of its own (ticket-resumed, or TLS 1.3 with a chosen legacy id) under A's table index, then presents A's id with B's secret
                     for (int how = 0; how < 3; how++) {
@@ -252,6 +258,14 @@ void Hist::connect(int c, int server, const Op &op) {
     static const uint32_t V[] = { v_tls_1_1, v_tls_1_2, v_tls_1_3 };
     pc.versions_c = { V[C.ver] }; pc.versions_s = { v_tls_1_3, v_tls_1_2, v_tls_1_1 };
     pc.suites = { C.suite }; pc.server_identity = server_kind; pc.tickets = C.tickets || C.ver == 2; pc.ems_c = C.ems;
+    bool widened = false;
+    if (op.b == 4 && mode == "resume" && C.ver != 2) {
+        // the client presents its TLS <= 1.2 state (id / ticket) in a ClientHello that ALSO offers TLS 1.3 (supported_versions): the server
+        // negotiates 1.3, for which that state is no valid resumption state at all
+        pc.versions_c = { v_tls_1_3, V[C.ver] }; pc.suites.push_back(TLS_AES_128_GCM_SHA256); pc.tickets = true; widened = true; C.dirty = true;
+        counters["fault.legacy_state_offered_with_tls13"]++;
+    }
+    (void) widened;
     if (C.multi && C.ver != 2) {
         static const uint16_t RSAF[] = { TLS_RSA_WITH_AES_128_CBC_SHA, TLS_RSA_WITH_AES_256_CBC_SHA, TLS_RSA_WITH_AES_128_CBC_SHA256, TLS_RSA_WITH_AES_256_CBC_SHA256, TLS_RSA_WITH_AES_128_GCM_SHA256, TLS_RSA_WITH_AES_256_GCM_SHA384 };
         static const uint16_t ECF[] = { TLS_ECDHE_ECDSA_WITH_AES_128_CBC_SHA, TLS_ECDHE_ECDSA_WITH_AES_256_CBC_SHA, TLS_ECDHE_ECDSA_WITH_AES_128_CBC_SHA256, TLS_ECDHE_ECDSA_WITH_AES_256_CBC_SHA384, TLS_ECDHE_ECDSA_WITH_AES_128_GCM_SHA256, TLS_ECDHE_ECDSA_WITH_AES_256_GCM_SHA384 };
